@@ -1,4 +1,7 @@
+//! Kani harnesses over libp2p-core (and crates that only need core): see /verif/DESIGN.md.
+//! One module per property, selected by cargo feature so that a check only generates
+//! code for its own harnesses; `thorough` adds the `*_t_*` harnesses.
 #![cfg_attr(kani, feature(allocator_api))]
-#![allow(dead_code, unused_imports)]
-#[cfg(kani)]
+#![allow(dead_code, unused_imports, unused_features)]
+#[cfg(all(kani, feature = "c22"))]
 mod c22;
